@@ -11,7 +11,7 @@ for path in glob.glob(V + '/proofs/*/*.c'):
         for p in u['props']:
             units.setdefault(p, []).append(u)
 NA = {
- 'C11': "Every clause of the statement relates the complete device image before and after a whole tune2fs run (or two tool runs); the code is inline in misc/tune2fs.c:main/update_feature_set and whole-filesystem iterators. No single-function contract expresses a clause of it or a necessary local instance not already claimed elsewhere (checksum definitions: C14; backups: C20). See DESIGN.md §7.",
+ # C11: claimed partially since the tune2fs helper units exist (see propmeta.json)
 }
 hooks = subprocess.run(['git', '-C', '/repo', 'log', '--format=%H %s'], stdout=subprocess.PIPE).stdout.decode().split('\n')
 hook_commits = [l.split()[0] for l in hooks if 'verif hooks' in l]
